@@ -328,6 +328,10 @@ func tokenExprUnaryToProtoExprUnary(op datalog.UnaryOp) (*pb.OpUnary, error) {
 
 func protoExprUnaryToTokenExprUnary(op *pb.OpUnary) (datalog.UnaryOpFunc, error) {
 	var unaryOp datalog.UnaryOpFunc
+	// protobuf-go does not enforce "required" inside every oneof member
+	if op.Kind == nil {
+		return nil, errors.New("biscuit: proto OpUnary has no kind")
+	}
 	switch *op.Kind {
 	case pb.OpUnary_Negate:
 		unaryOp = datalog.Negate{}
@@ -386,6 +390,10 @@ func tokenExprBinaryToProtoExprBinary(op datalog.BinaryOp) (*pb.OpBinary, error)
 
 func protoExprBinaryToTokenExprBinary(op *pb.OpBinary) (datalog.BinaryOpFunc, error) {
 	var binaryOp datalog.BinaryOpFunc
+	// protobuf-go does not enforce "required" inside every oneof member
+	if op.Kind == nil {
+		return nil, errors.New("biscuit: proto OpBinary has no kind")
+	}
 	switch *op.Kind {
 	case pb.OpBinary_LessThan:
 		binaryOp = datalog.LessThan{}
